@@ -1408,3 +1408,31 @@ func errorExitFromK(b *ssa.BasicBlock) (*ssa.Return, map[ssa.Value]bool) {
 	}
 	return nil, nil
 }
+
+// edgeHolds: block t is reached only when edge k of `from` was taken - by dominance, or through the path correlation
+// of dominatingConds (a result variable set on that edge and tested afterwards).
+func edgeHolds(from *ssa.BasicBlock, k int, t *ssa.BasicBlock) bool {
+	if edgeDominated(from, k, t) {
+		return true
+	}
+	iff, ok := lastInstr(from).(*ssa.If)
+	if !ok {
+		return false
+	}
+	// polarity of edge k in terms of the condition with negations peeled
+	val := k == 0
+	c := iff.Cond
+	for {
+		u, isNot := c.(*ssa.UnOp)
+		if !isNot || u.Op != token.NOT {
+			break
+		}
+		c, val = u.X, !val
+	}
+	for _, ce := range dominatingConds(t) {
+		if ce.If == iff && ce.Val == val {
+			return true
+		}
+	}
+	return false
+}
